@@ -25,7 +25,7 @@ claimed = {
          "The harness context's Done() is the poll, so 'cancel at any moment' becomes an exhaustive sweep over k for small K and a stratified sample for large K; both backends; spawned cores included.",
          "Poll numbering starts after NewVM returns (NewVM documents a panic when initialisation fails). Multi-core programs have schedule-dependent poll interleavings."),
  "C11": ("exploration", "exhaustive small-scope enumeration of control-flow nestings against the reference semantics",
-         "All nestings of 13 contexts to depth 3 (quick) / 4 (thorough) around 9 exits, with and without a tail throw, on both backends.",
+         "All nestings of 15 contexts to depth 3 (quick) / 4 (thorough) around 9 exits, with and without a tail throw, on both backends.",
          "Trusted: the reference evaluator for the statement forms used by the templates."),
  "C16": ("exploration", "model-based stateful testing of host invocation histories on one VM",
          "Generated program + generated call history; a reference evaluator with persistent globals predicts every call; residue is checked white-box after each completed call.",
